@@ -220,8 +220,11 @@ impl PyprojectTomlParser {
         string_node: tree_sitter::Node,
         content: &str,
     ) -> Option<PackageInfo> {
-        // Parse with pep508_rs
-        let req = Requirement::<VerbatimUrl>::from_str(dep_str)
+        // Parse with pep508_rs. The library panics on some malformed requirements
+        // (e.g. "a[x-]"), so a panic is treated like any other parse failure.
+        let req = std::panic::catch_unwind(|| Requirement::<VerbatimUrl>::from_str(dep_str))
+            .inspect_err(|_| warn!("Failed to parse dependency '{}': parser panicked", dep_str))
+            .ok()?
             .inspect_err(|e| warn!("Failed to parse dependency '{}': {}", dep_str, e))
             .ok()?;
 
